@@ -17,7 +17,7 @@ import gen
 import mockca
 import tacdrun
 import vlib
-from ext import auditd_c20
+from ext import auditd_c20, sched_c20
 
 FINISH = dict(
     level="proof",
@@ -53,7 +53,14 @@ FINISH = dict(
          "level; one TACD_PORT per identifier; TACD_PID_ROOT = TACD_SOCK_ROOT; roots with a trailing slash, a "
          "space, non-ASCII characters. Identifiers configured as U-labels / in mixed case: every documented place "
          "is derived from the name the CA was asked for, which must be the lower-case A-label form (Python's own "
-         "codec). The 79-character name in the unix group (socket root short enough for sun_path).",
+         "codec). The 79-character name in the unix group (socket root short enough for sun_path). "
+         "The CA's CONNECTION SCHEDULE (py/ext/sched_c20.py; tls-alpn-01, TCP and unix-socket groups): about half of "
+         "the tls-alpn-01 scenarios plus dedicated ones are validated over connections that are open at the same time: "
+         "2..3 vantage points that all connect first and then handshake in an order different from the accept order "
+         "(reverse, rotations) or all at once, a silent reachability connection opened first and kept open during the "
+         "validation, finished vantage points' connections kept open while the next one handshakes; each vantage point "
+         "waits 20 s for its handshake, one that gets no answer = validation failed (same judge). http-01-echo has no "
+         "such dimension: the proof is a file, the server that serves it is not part of the code under test.",
 )
 
 TOK_DIR = ".well-known/acme-challenge"
@@ -92,6 +99,9 @@ def scenarios(ctx):
     # documented defaults of TACD_HOST (= identifier) and TACD_PORT (= 5001): run one after the other
     out.append({"idx": i, "group": "tls-alpn-01-tacd-tcp", "git": False, "n": 2, "ident": "localhost",
                 "level": "global", "default_hostport": True})
+    # the CA's connection schedule (ext/sched_c20.py): about half of the tls-alpn-01 scenarios above are validated
+    # over several connections that are open at the same time
+    sched_c20.assign(ctx, out)
     return auditd_c20.widen(ctx, out)
 
 
@@ -163,6 +173,15 @@ def run_one(sc, root, helper, tacd_dir):
                 obs["validated"] = obs["proof_file_content"].rstrip() == ka
             except OSError as e:
                 obs["error"] = str(e)
+        elif ch["type"] == "tls-alpn-01" and sc.get("schedule"):
+            # several connections open at the same time, handshakes in the schedule's order (ext/sched_c20.py)
+            digest = hashlib.sha256(ka.encode()).hexdigest()
+            obs["expected"] = "0420" + digest
+            a = authz["identifier"]["value"]
+            at = listen if sc["group"] != "tls-alpn-01-tacd-unix" else \
+                "unix:" + os.path.join(sock_root, "tacd_%s.sock" % a)
+            sched_c20.fold(sched_c20.validate(at, a, digest, sc["schedule"], helper,
+                                              lambda v: (sc["idx"] + v) % 2 == 1), obs)
         elif ch["type"] == "tls-alpn-01":
             digest = hashlib.sha256(ka.encode()).hexdigest()
             obs["expected"] = "0420" + digest
@@ -368,7 +387,9 @@ def judge(ctx, results):
             bad = [k for k, ok in enumerate(v.get("issuances_ok", [])) if not ok]
             ctx.violation("group %s%s, identifier %s: %s" % (
                 sc["group"], "+git" if sc["git"] else "", sc["ident"],
-                ("issuance %d: %s" % (bad[0] + 1, json.dumps(r["issuances"][bad[0]])[:300])) if bad
+                ("issuance %d: %s%s" % (bad[0] + 1, ("%s — " % r["issuances"][bad[0]]["error"]) if sc.get("schedule") and
+                                        r["issuances"][bad[0]].get("error") else "",
+                                        json.dumps(r["issuances"][bad[0]])[:300])) if bad
                 else "git log does not name every stored file: %s" % json.dumps(r.get("git"))[:300]), robj)
     ctx.traces += len(results)
     if results:
